@@ -157,7 +157,7 @@ def _split_cases(out):
 
 MAX_FAILED_CASES_PER_CALL = 12
 # valgrind memcheck as a wrapper of an uninstrumented build: uninitialised-value errors only (lib/memcheck.supp)
-MEMCHECK = ("valgrind", "-q", "--error-exitcode=71", "--exit-on-first-error=yes", "--track-origins=no",
+MEMCHECK = ("valgrind", "-q", "--vgdb=no", "--error-exitcode=71", "--exit-on-first-error=yes", "--track-origins=no",
             "--suppressions=" + os.path.join(os.path.dirname(os.path.abspath(__file__)), "memcheck.supp"))
 
 
